@@ -33,9 +33,48 @@ type side struct {
 	lbc  *lb.Client
 }
 
+// busy is a backend with a second writer: right after every successful Create/Update of a resource another
+// party commits an update of the same resource (the deterministic form of "another client wrote in between").
+// The caller's write-back must still describe the caller's own write, on both sides.
+type busy struct {
+	state.CoreState
+}
+
+func (b busy) other(ctx context.Context, r resource.Resource) {
+	cur, err := b.CoreState.Get(ctx, r.Metadata())
+	if err != nil {
+		return
+	}
+	if ir, ok := cur.(*conformance.IntResource); ok {
+		ir.SetValue(ir.Value() + 100)
+	}
+	b.CoreState.Update(ctx, cur, state.WithUpdateOwner(cur.Metadata().Owner()), state.WithExpectedPhaseAny()) //nolint:errcheck
+}
+
+func (b busy) Create(ctx context.Context, r resource.Resource, opts ...state.CreateOption) error {
+	err := b.CoreState.Create(ctx, r, opts...)
+	if err == nil {
+		b.other(ctx, r)
+	}
+	return err
+}
+
+func (b busy) Update(ctx context.Context, r resource.Resource, opts ...state.UpdateOption) error {
+	err := b.CoreState.Update(ctx, r, opts...)
+	if err == nil {
+		b.other(ctx, r)
+	}
+	return err
+}
+
+var busyBackend bool // set per scenario (scenarios of this harness run sequentially in one process each)
+
 func newSides(noNative bool) [2]*side {
-	direct := &side{name: "direct", st: state.WrapCore(namespaced.NewState(inmem.Build))}
-	backend := namespaced.NewState(inmem.Build)
+	var dcore, backend state.CoreState = namespaced.NewState(inmem.Build), namespaced.NewState(inmem.Build)
+	if busyBackend {
+		dcore, backend = busy{dcore}, busy{backend}
+	}
+	direct := &side{name: "direct", st: state.WrapCore(dcore)}
 	c := lb.New(server.NewState(backend))
 	c.NoNative = noNative
 	remote := &side{name: "remote", st: state.WrapCore(client.NewAdapter(c)), lbc: c}
@@ -764,6 +803,18 @@ func build(tier string) []explore.Scenario {
 	}
 	for _, f := range firsts[:2] {
 		out = append(out, diffScenario(f, depth, true, rich))
+	}
+	for _, f := range firsts[:2] {
+		sc := diffScenario(f, depth-1, false, rich)
+		sc.Name = strings.Replace(sc.Name, "diff/native/", "diff/native+busy-backend/", 1)
+		sc.Desc += "; here a second writer commits an update of the same resource right after every successful Create/Update on both backends: the write-back still describes the caller's own write"
+		body := sc.Body
+		sc.Body = func(x *explore.X) {
+			busyBackend = true
+			defer func() { busyBackend = false }()
+			body(x)
+		}
+		out = append(out, sc)
 	}
 	out = append(out, robustScenario(), overrunScenario())
 	return out
